@@ -36,7 +36,7 @@ ASSUMPTIONS = [
     "(boards wrap around); other sizes have no wrap-around and a chip is only "
     "judged when its board's Ethernet chip lies inside the machine",
 ]
-FLOORS = {"eth_list": 1000, "local_eth": 10000, "chip_coord": 10000,
+FLOORS = {"eth_enumeration_abandoned": 2000, "eth_list": 1000, "local_eth": 10000, "chip_coord": 10000,
           "fpga_link": 50000, "std_dims": 3000, "fpga_ids_distinct": 1}
 SHARDS = {"quick": 16, "thorough": 64}
 
